@@ -111,6 +111,35 @@ def cond_rect(Mt):
     return float(s[0] / s[k - 1]) if s[k - 1] > 0 else np.inf
 
 
+def degenerate_source(rng, s, kind):
+    """Make one source of the system dict `s` degenerate (in place; bounds become explicit arrays):
+    'pinned' - lower bound == upper bound > 0 (a source that cannot be changed), 'off' - lb == ub == 0 (switched off),
+    'dark' - its column of A is exactly zero (excites no receptor), 'twin' - a copy of another source's column."""
+    A = np.atleast_2d(np.asarray(s["A"], float)).copy()
+    m, n = A.shape
+    if n < 2:
+        return None
+    _, _, lbv, ubv = sys_arrays(s)
+    lbv, ubv = lbv.copy(), ubv.copy()
+    j = int(rng.integers(n))
+    if kind in ("pinned", "off"):
+        if not np.all(np.isfinite(ubv)):
+            return None
+        v = 0.0 if kind == "off" else float(lbv[j] + rng.uniform(0.2, 0.8) * (ubv[j] - lbv[j]))
+        lbv[j] = ubv[j] = v
+        s["lb"], s["ub"] = lbv, ubv
+        s["lbkind"] = "pos" if np.any(lbv > 0) else "zero"
+    elif kind == "dark":
+        A[:, j] = 0.0
+        s["A"] = A
+    elif kind == "twin":
+        k = (j + 1) % n
+        A[:, j] = A[:, k]
+        s["A"] = A
+    s["degenerate"] = kind
+    return j
+
+
 def regime_report(A, lb, ub, K, baseline, B=None):
     """Re-computes C04's 'well-scaled' regime from the arguments.  Returns (ok, info)."""
     Mt, c = oracles.transform(A, K, baseline)
